@@ -279,6 +279,9 @@ class Runner(object):
             if r[0] == 'fromimport':
                 src = 'from %s import ' % nm.modstr(r[1])
                 _p, names = server.assist(src, [1, len(src)], self.mainfile)
+                if not os.path.exists(nm.modfile(self.root, r[1], self.packages)):
+                    # the module is nowhere and supp did not raise: only the directory listing was proposed
+                    return ['missing', self.canon_names(names)]
                 return ['names', self.canon_names(names)]
             if r[0] == 'locimport':
                 tail = 'import ' + nm.modstr(r[2])
@@ -727,10 +730,16 @@ Definition acyclic (c : case) : bool :=
 
 def model_view(h, answers):
     """observed answers as the model states them. For go-to-definition on `import <missing>` the model
-    says ImportError; should supp one day answer "no location" instead of raising, that is the same
-    fact for this property (the direct comparison long-lived vs fresh stays literal)."""
+    says ImportError; should supp one day answer "no location" instead of raising (or, for
+    `from <missing> import |`, propose the bare directory listing), that is the same fact for this property (the direct comparison long-lived vs fresh stays literal)."""
     reqs = [o[1] for o in h['ops'] if is_req(o)]
-    return [['importerror'] if r[0] == 'locimport' and a == ['loc', []] else a for r, a in zip(reqs, answers)]
+    def view(r, a):
+        if r[0] == 'locimport' and a == ['loc', []]:
+            return ['importerror']
+        if r[0] == 'fromimport' and a[0] == 'missing':
+            return ['importerror']      # same fact: the module cannot be found (listing is not cached state)
+        return a
+    return [view(r, a) for r, a in zip(reqs, answers)]
 
 
 def case_term(h, la, fa):
@@ -816,8 +825,8 @@ def run(ctx):
     L = ctx.pick(3, 4)
     for n in range(1, L + 1):
         for seq in itertools.product(alphabet, repeat=n):
-            if not any(is_req(o) for o in seq):
-                continue
+            if not is_req(seq[-1]):
+                continue      # nothing is observed after the last edit: same as the shorter sequence
             histories.append({'ops': setup + list(seq), 'packages': [P], 'rel_ok': False, 'origin': 'exhaustive',
                               'ranks': EXH_RANKS})
     nexh = len(histories) - ncorpus
